@@ -101,11 +101,11 @@ def run(rep, model, tier, seed, broken=()):
         rep.count_case(json.dumps(treeh.case_json(case), sort_keys=True, default=str),
                        "tree" in case and sum(1 for _ in treeh.walk_tree(case["tree"])) >= 3)
         prob = compare(tr, ir, mv, tr.case)
-        if prob is None and ct.tree_ok(case) and rng.random() < (0.15 if tier == "quick" else 0.05):
+        if prob is None and ct.tree_ok_excl(tr) and rng.random() < (0.15 if tier == "quick" else 0.05):
             prob = single_file_oracle(model, tr.case, ir)
             rep.dist("walk:single_file_oracle_checked")
         if prob:
-            if ct.tree_ok(case):
+            if ct.tree_ok_excl(tr):
                 nbad += 1
                 if nbad <= 3:
                     def still_bad(c2):
